@@ -201,9 +201,23 @@ def run_twz(d, args, cfg):
     return res, B.snapshot()
 
 
-def compare(col, pid, prog, cfg, args, sites, ref, res, log, rp, clauses):
-    """Differential oracle. Returns True when a disagreement was found."""
+def compare(col, pid, prog, cfg, args, sites, ref, res, log, rp, clauses, only=None):
+    """Differential oracle. Returns True when a disagreement was found.
+    only: restrict the reported mechanisms (a check for another property re-uses this workload for its own clause)."""
     bad = False
+    real = col
+
+    class _Col:
+        def __getattr__(self, k):
+            return getattr(real, k)
+
+        def violation(self, p, mech, w, r):
+            if only is None or mech in only:
+                real.violation(p, mech, w, r)
+            else:
+                real.counters["other_clause:" + mech] += 1
+
+    col = _Col()
     if ref[0] == "exc":
         col.counters["ref_raised_skipped"] += 1
         return False
@@ -244,6 +258,10 @@ def compare(col, pid, prog, cfg, args, sites, ref, res, log, rp, clauses):
                 col.violation(pid, mech, dict(node=nid, flag_value=s["flag_values"], entered=got, args=short(args),
                                               source="\n".join(G.all_sources(prog))), rp)
                 bad = True
+            elif got != exp:
+                col.violation(pid, "call_site_entered_%d_times_expected_%d" % (got, exp), dict(node=nid, args=short(args),
+                                                                                            source="\n".join(G.all_sources(prog))), rp)
+                bad = True
             elif got == 1 and exp == 1 and "args" in s:
                 col.counters["c10_dependent_arg_checks"] += 1
                 ea, ek = s["args"]
@@ -255,7 +273,7 @@ def compare(col, pid, prog, cfg, args, sites, ref, res, log, rp, clauses):
     return bad
 
 
-def one_program(col, pid, rng, feats, depth, pidx, reps=3, clauses=True, flavours=None):
+def one_program(col, pid, rng, feats, depth, pidx, reps=3, clauses=True, flavours=None, only=None):
     g = G.Gen(rng, feats)
     prog = g.program(depth, "p%d" % pidx)
     plain = mkplain(prog)
@@ -267,7 +285,8 @@ def one_program(col, pid, rng, feats, depth, pidx, reps=3, clauses=True, flavour
         d = build_twz(prog, plain, cfg)
     except BaseException as e:  # noqa: BLE001
         col.counters["build_error:%s" % type(e).__name__] += 1
-        col.violation(pid, "build_of_in_fragment_program_failed", dict(exc=repr(e)[:300], source="\n".join(G.all_sources(prog))), rp)
+        if only is None:
+            col.violation(pid, "build_of_in_fragment_program_failed", dict(exc=repr(e)[:300], source="\n".join(G.all_sources(prog))), rp)
         return
     col.counters["programs"] += 1
     nsites = sum(1 for st in prog["stmts"] if st["op"] in ("call", "dag"))
@@ -282,7 +301,7 @@ def one_program(col, pid, rng, feats, depth, pidx, reps=3, clauses=True, flavour
         probes.State.ref_counts = rcounts
         col.evaluations += 1
         rp2 = dict(rp, args=jsonable(args), rep=rep)
-        bad = compare(col, pid, prog, cfg, args, sites, ref, res, log, rp2, clauses)
+        bad = compare(col, pid, prog, cfg, args, sites, ref, res, log, rp2, clauses, only=only)
         if ref[0] == "ok" and nsites >= 2:
             order = tuple((e["kind"][1], e["node"]) for e in log if e["kind"] in ("FENTER", "FEXIT"))
             col.hashes.add("%08x%08x" % (zlib.crc32("\n".join(G.all_sources(prog)).encode()), zlib.crc32(repr((order, short(args), cfg["mc"], cfg["is_async"])).encode())))
@@ -302,7 +321,7 @@ def job_diff(j):
     col = Collector()
     for pidx in range(j["n_programs"]):
         one_program(col, j["pid"], rng, j["feats"], j.get("depth", 0), pidx, reps=j.get("reps", 3), clauses=j.get("clauses", True),
-                    flavours=j.get("flavours"))
+                    flavours=j.get("flavours"), only=j.get("only"))
     return col.result()
 
 
